@@ -321,7 +321,11 @@ def run(ctx):
     if ok:
         res = ctx.coq_eval("par", HDR, exprs, per_file=100, timeout=900)
         for (items, agg, rep), (mi, ma) in zip(impls, res):
-            canon = lambda v: v if isinstance(v, list) else [int(v.replace("Error: boom", ""))]   # noqa: E731
+            def canon(v):
+                if isinstance(v, list):
+                    return v
+                d = str(v).replace("Error: boom", "")
+                return [int(d)] if d.isdigit() else [-1, str(v)]      # an unexpected value never matches the model
             it = [(int(k[1:]), canon(v)) for k, v in items]
             ag = [canon(v) for v in agg]
             if it != [(a, list(b)) for a, b in mi] or ag != [list(b) for b in ma]:
